@@ -1,6 +1,7 @@
 package props
 
 import (
+	"encoding/json"
 	"fmt"
 	"regexp"
 	"sort"
@@ -33,6 +34,7 @@ func init() {
 			{Name: "percall-deviations", Run: c10Dev, QuickS: 60, ThoroughS: 900},
 			{Name: "scan-schedules", Run: c10Scan, QuickS: 60, ThoroughS: 900},
 			{Name: "ordered-participants", Run: c10Ordered, QuickS: 60, ThoroughS: 600},
+			{Name: "whole-start-schedules", Run: c10Whole, QuickS: 60, ThoroughS: 900},
 		},
 	})
 }
@@ -565,4 +567,77 @@ func c10Ordered(c *core.Ctx) {
 			c.Sample(map[string]any{"site": cs.Site, "symbols": cs.Seq, "sequence": first, "orders_run": factorialInt(n)})
 		}
 	})
+}
+
+// ---- whole starts with the goroutine schedule of the scanning phase deviating once: every
+// scheduling point of a complete start (all built-in scanners, all components) is a choice point
+
+func c10Whole(c *core.Ctx) {
+	gen := func(yield func(c10GraphCase) bool) {
+		e2 := mkEdges(2)
+		e2[0][1], e2[1][0] = scen.EName, scen.ESlice
+		if !yield(c10GraphCase{N: 2, Edges: e2}) {
+			return
+		}
+		e3 := mkEdges(3)
+		e3[0][1], e3[1][2], e3[2][0] = scen.EName, scen.ETypeQ, scen.ESlice
+		if !yield(c10GraphCase{N: 3, Edges: e3}) {
+			return
+		}
+		e3b := mkEdges(3)
+		e3b[0][1], e3b[0][2], e3b[1][2], e3b[2][1] = scen.ESlice, scen.ESlice, scen.EPtr, scen.ENameOpt
+		yield(c10GraphCase{N: 3, Edges: e3b})
+	}
+	// every worker takes every program and a share of its alternatives (the sharding is inside)
+	var all []c10GraphCase
+	if c.ReplayCase != nil {
+		var one c10GraphCase
+		json.Unmarshal(c.ReplayCase, &one)
+		all = []c10GraphCase{one}
+	} else {
+		gen(func(x c10GraphCase) bool { all = append(all, x); return true })
+	}
+	run := func(c *core.Ctx, cs c10GraphCase) {
+		core.Tick()
+		p := &scen.GraphProg{N: cs.N, Edges: cs.Edges, Kinds: "S", Config: true, Obs: 1}
+		first := ""
+		if c.Shard == 0 {
+			c.S.Programs++
+			c.S.Nontrivial++
+		}
+		// shard the level-1 subtrees of the exploration over the workers
+		root := scen.RunGraph(p, envx.Fixed("S", nil))
+		first = graphWiringSig(root) + "|" + strings.Join(root.RT.Log, " ")
+		pts := root.RT.Ch.Pts
+		idx := 0
+		for i, pt := range pts {
+			for alt := 1; alt < pt.N; alt++ {
+				idx++
+				if !c.Mine(idx) {
+					continue
+				}
+				if idx&15 == 0 && c.Expired() {
+					return
+				}
+				pre := make([]int, i+1)
+				pre[i] = alt
+				o := scen.RunGraph(p, envx.Fixed("S", pre))
+				c.S.Evaluations++
+				c.S.States++
+				c.S.Transitions += int64(len(o.RT.Ch.Pts))
+				sig := graphWiringSig(o) + "|" + strings.Join(o.RT.Log, " ")
+				if sig != first {
+					cc := cs
+					c.Outcome("whole/differs")
+					c.Report("C10/whole/"+core.Hash(cs.N, cs.Edges), "order-dependent", fmt.Sprintf("whole start of graph %v: with the goroutine schedule of the scanning phase deviating at point %d (alternative %d of %d) the outcome is %q, default schedule %q", cs.Edges, i, alt, pt.N, sig, first), cc)
+					return
+				}
+				c.Outcome("whole/same")
+			}
+		}
+		c.Sample(map[string]any{"edges": cs.Edges, "scheduling_choice_points": len(pts), "alternatives": idx})
+	}
+	for _, cs := range all {
+		run(c, cs)
+	}
 }
